@@ -10,6 +10,9 @@ op:  req rt=<incoming|peer> ep=<event|batch|otlp-http-traces|otlp-http-logs|otlp
          body=<ok|gzip|zstd|readerr|badgzip|truncgzip|badzstd|garbage|truncated|oversize>
          evs=<letters|->    e empty data, d no data member, n no trace id, p peer's trace,
                             l own trace, f own trace with the collector queue full, x probe
+     ts=<letters|->     per-event time text class (a absent, r RFC 3339, 0/3/6/9 epochs, s t u x short
+                        numerics, f float, g garbage, e empty).  `getEventTime` is total: every text
+                        yields some time and never a failure, so the model's answer does not depend on it.
 obs: w=<H<code>|B<err|list:s:s..|empty|other>|G<grpc code>,…> up=<i,…|-> peer=… coll=… ref=… cq=<in|peer|mixed|->
      (cq: which collector method was called: AddSpan / AddSpanFromPeer)
 
@@ -57,6 +60,9 @@ def parseOp (op : List String) : Option POp := do
   let env ← kv op "env"
   let body ← kv op "body"
   let items ← itemsOf (← kv op "evs")
+  let ts ← kv op "ts"
+  let tsChars := if ts == "-" then [] else ts.toList
+  guard (tsChars.all fun c => "ar0369stuxfge".toList.contains c)
   guard (["mux", "direct"].contains via ∧ ["ok", "bad"].contains ct ∧ ["ok", "bad"].contains ds)
   guard (["classic", "es", "none"].contains key ∧ ["ok", "fail", "upok", "up401", "up500"].contains env)
   let readF := ["readerr", "badgzip", "truncgzip", "badzstd"].contains body
@@ -74,8 +80,10 @@ def parseOp (op : List String) : Option POp := do
   if native then
     guard (["json", "msgpack"].contains enc ∧ ct == "ok" ∧ (ds == "ok" ∨ via == "direct"))
     guard (body != "oversize" ∨ enc == "json")
+    guard (tsChars.length == items.length)
+    guard (!(ep == "batch" && enc == "msgpack") || tsChars.all fun c => c == 'a' || c == 'r')
   else
-    guard (enc == "proto" ∧ via == "mux" ∧ ds == "ok" ∧ body != "oversize")
+    guard (enc == "proto" ∧ via == "mux" ∧ ds == "ok" ∧ body != "oversize" ∧ tsChars.isEmpty)
   match ep with
   | "event" =>
     match items with
@@ -214,7 +222,7 @@ def respMon (m : Unit) (op : List String) (_ : List (List String)) (obs : Option
       (p.items[i]? == some .emptyData && (l.filter (· == "?")).length > nNoData)
     -- (A) an error status for the request as a whole: nothing else written, nothing forwarded or buffered
     let fA := if isErr && (hs.length > 1 || bs.length > 1 || gs.length > 1 || !sunk.isEmpty) then
-        [mkFail (pre ++ tag ++ "-continues")
+        [mkFail (pre ++ (if tag == "no-fault" then "error-status-after-effects" else tag ++ "-continues"))
           s!"error status answered, yet the handler went on: writes {wstr}, upstream {strList up}, peer {strList peer}, collector {strList coll}"]
       else []
     -- (B) exactly one status also on success
